@@ -30,6 +30,7 @@ def dispatch (line : String) : String :=
   | "ar" :: args => runAR args
   | "sw" :: args => runSW args
   | "sr" :: args => runSR args
+  | "sri" :: args => runSRI args
   | "sg" :: args => runSG args
   | "sb" :: args => runSB args
   | "sc" :: args => runSC args
